@@ -62,18 +62,16 @@ func hashFieldFromOwnDigest(c *core.Ctx, rule string, rels ...string) {
 					}
 					n++
 					good := false
-					if hc, isC := facts.Resolve(hv).(*ssa.Call); isC && (strings.HasSuffix(facts.CalleeName(&hc.Call), "go-digest.Algorithm).Hash") || strings.HasSuffix(facts.CalleeName(&hc.Call), "go-digest.Algorithm).Digester")) && len(hc.Call.Args) == 1 {
-						if ac, isAC := facts.Resolve(hc.Call.Args[0]).(*ssa.Call); isAC && strings.HasSuffix(facts.CalleeName(&ac.Call), "go-digest.Digest).Algorithm") && len(ac.Call.Args) == 1 {
-							if base, fld, isF := facts.FieldOf(facts.Resolve(ac.Call.Args[0])); isF && fld == "Digest" {
-								got := strings.TrimPrefix(facts.Term(facts.Resolve(base)), "*")
-								want := strings.TrimPrefix(facts.Term(facts.Resolve(dv)), "*")
-								norm := func(t string) string {
-									return strings.Trim(strings.TrimPrefix(strings.TrimPrefix(t, "&"), "*"), "()")
-								}
-								good = norm(got) == norm(want)
-								if !good && os.Getenv("OCIVET_DEBUG") != "" {
-									println("hash-from-own-digest terms:", got, want)
-								}
+					if dg := hashedDigest(hv, 2); dg != nil {
+						if base, fld, isF := facts.FieldOf(facts.Resolve(dg)); isF && fld == "Digest" {
+							norm := func(t string) string {
+								return strings.Trim(strings.TrimPrefix(strings.TrimPrefix(t, "&"), "*"), "()")
+							}
+							got := norm(facts.Term(facts.Resolve(base)))
+							want := norm(facts.Term(facts.Resolve(dv)))
+							good = got == want
+							if !good && os.Getenv("OCIVET_DEBUG") != "" {
+								println("hash-from-own-digest terms:", got, want)
 							}
 						}
 					}
@@ -85,6 +83,43 @@ func hashFieldFromOwnDigest(c *core.Ctx, rule string, rels ...string) {
 	if n == 0 {
 		c.Fail(rule, "hash-from-own-digest/instance-floor", 0, "no value carrying both a descriptor and a running hash found")
 	}
+}
+
+// hashedDigest: v is <d>.Algorithm().Hash() (or .Digester()), possibly built by
+// a private helper from a digest parameter: the digest d, else nil.
+func hashedDigest(v ssa.Value, depth int) ssa.Value {
+	hc, ok := facts.Resolve(v).(*ssa.Call)
+	if !ok {
+		return nil
+	}
+	name := facts.CalleeName(&hc.Call)
+	if (strings.HasSuffix(name, "go-digest.Algorithm).Hash") || strings.HasSuffix(name, "go-digest.Algorithm).Digester")) && len(hc.Call.Args) == 1 {
+		if ac, isAC := facts.Resolve(hc.Call.Args[0]).(*ssa.Call); isAC && strings.HasSuffix(facts.CalleeName(&ac.Call), "go-digest.Digest).Algorithm") && len(ac.Call.Args) == 1 {
+			return ac.Call.Args[0]
+		}
+		return nil
+	}
+	h := hc.Call.StaticCallee()
+	if h == nil || h.Blocks == nil || depth <= 0 || len(privateCallSites(h)) == 0 {
+		return nil
+	}
+	rets := returnsOf(h)
+	if len(rets) != 1 || len(rets[0].Results) == 0 {
+		return nil
+	}
+	inner := hashedDigest(facts.RetVal(rets[0], 0), depth-1)
+	if inner == nil {
+		return nil
+	}
+	// the helper's digest parameter (or a field of a parameter) stands for this call's argument
+	if p, isP := facts.Resolve(inner).(*ssa.Parameter); isP {
+		for i, q := range h.Params {
+			if q == p && i < len(hc.Call.Args) {
+				return hc.Call.Args[i]
+			}
+		}
+	}
+	return nil
 }
 
 // trimmerStripsWheneverWriterAdds (C07.R10; seed C07-Q): the function that
